@@ -4,38 +4,63 @@ from __future__ import annotations
 import ast
 
 from ..cfg import cfg_of, T as TRUE, F as FALSE
-from ..dataflow import derives
+from ..dataflow import derives, rd_of, resolve_local, resolve_name, return_values, expand_locals
 from ..loader import dotted, walk_no_nested
-from .common_guard import raising_ifs
+from .common_guard import raising_ifs, sufficient, rel
 
 DEC = "decompositions.py"
 
 
-def _feat(test, txt, param) -> set:
-    """precondition classes a raising test checks"""
-    t = txt.replace(" ", "")
+def _feat(a, v) -> set:
+    """precondition classes whose FAILURE the sufficient atom (a == v) of a raising test expresses; `a` has its locals
+    inlined, orientation / operand order / negation are normalised by sufficient() and rel()"""
+    t = ast.unparse(a).replace(" ", "")
+    r = rel(a, v)
     out = set()
-    if isinstance(test, ast.Compare) and isinstance(test.ops[0], ast.NotEq) and isinstance(test.left, ast.Name) and \
-            isinstance(test.comparators[0], ast.Name):
-        out.add("square")
-    if "shape[0]==" in t and "shape[1]" in t:
-        out.add("square")
-    if ("np.transpose(" in t or ".T" in t) and "@" not in t and ("norm(" in t or "allclose(" in t):
-        out.add("symmetric")
-    if ".conj().T" in t and "allclose(" in t and ("identity(" in t or "eye(" in t):
-        out.add("unitary")
-    if "%2!=0" in t:
+
+    def mod2(e):
+        return any(isinstance(x, ast.BinOp) and isinstance(x.op, ast.Mod) and isinstance(x.right, ast.Constant) and
+                   x.right.value == 2 for x in ast.walk(e))
+
+    def const(e, val=None):
+        return isinstance(e, ast.Constant) and (val is None or e.value == val)
+
+    transposed = "np.transpose(" in t or ".T" in t
+    if r is not None and r[0] == "!=":
+        l, rr = r[1], r[2]
+        if isinstance(l, ast.Name) and isinstance(rr, ast.Name):
+            out.add("square")
+        if "shape[0]" in t and "shape[1]" in t:
+            out.add("square")
+        if mod2(a) and (const(l, 0) or const(rr, 0)):
+            out.add("even")
+        if ".shape" in t and (isinstance(l, ast.Tuple) or isinstance(rr, ast.Tuple)):
+            out.add("shape")
+    if r is not None and r[0] == "==" and mod2(a) and (const(r[1], 1) or const(r[2], 1)):
         out.add("even")
-    if "<=0" in t:
-        out.add("positive-definite")
-    if "omega" in t and "@" in t:
-        out.add("symplectic")
-    if isinstance(test, ast.Compare) and isinstance(test.ops[0], ast.Lt) and isinstance(test.comparators[0], ast.Constant):
-        out.add("min-size")
-    if ".shape!=" in t:
-        out.add("shape")
-    if "det(" in t:
-        out.add("unit-det")
+    if isinstance(a, ast.Call) and (dotted(a.func) or "").split(".")[-1] in ("allclose", "isclose", "array_equal") and not v:
+        if transposed and "@" not in t:
+            out.add("symmetric")
+        if ".conj().T" in t and ("identity(" in t or "eye(" in t):
+            out.add("unitary")
+        if "det(" in t:
+            out.add("unit-det")
+        if "@" in t and ("sympmat" in t or "omega" in t.lower()):
+            out.add("symplectic")
+    if r is not None and r[0] in (">", ">="):
+        big, small = r[1], r[2]
+        bt = ast.unparse(big).replace(" ", "")
+        if "norm(" in bt:
+            if ("np.transpose(" in bt or ".T" in bt) and "@" not in bt:
+                out.add("symmetric")
+            if "@" in bt and ("sympmat" in bt or "omega" in bt.lower()):
+                out.add("symplectic")
+            if ".conj().T" in bt and ("identity(" in bt or "eye(" in bt):
+                out.add("unitary")
+        if const(big, 0):
+            out.add("positive-definite")
+        if const(big) and isinstance(big.value, int) and big.value > 0 and not const(small):
+            out.add("min-size")
     return out
 
 
@@ -71,18 +96,8 @@ def established(ctx, f, seen=()):
             continue
         if rets and not all(cfg.dominates(n.id, r) or _loop_guard(cfg, n.id, r) for r in rets):
             continue
-        # the raising side must be the one where the precondition FAILS: for `if not ok(...)`/`!=`/`>= tol` that is the true branch
-        if lab != TRUE:
-            continue
-        txt = ast.unparse(n.ast)
-        # one level of local definitions: diffn = norm(V - V.T); if diffn >= tol
-        from ..dataflow import rd_of
-        rd = rd_of(f.node)
-        for nm in {x.id for x in ast.walk(n.ast) if isinstance(x, ast.Name)}:
-            for d in rd.reaching(nm, n.id):
-                if d.kind == "assign" and d.value is not None and d.index is None:
-                    txt += " ; " + ast.unparse(d.value)
-        got |= _feat(n.ast, txt, param)
+        for a, v in sufficient(n.ast, lab == TRUE):
+            got |= _feat(expand_locals(f.node, a, at=n.id), v)
     m = f.module
     for nd in cfg.nodes:
         if nd.kind != "stmt" or nd.ast is None:
